@@ -721,6 +721,60 @@ func c19(c *core.Ctx) {
 					}
 				}
 			}
+			// … or in a lookup helper that is handed the option name and answers with the field to set
+			// (boolOption(name) *bool): its comparisons of the name count, and so do the fields it answers with
+			viaHelper := map[string]string{}
+			for _, h := range core.HelperCallsOf(body) {
+				if h.Callee == nil || h.Callee.Blocks == nil || !core.PkgIs(h.Callee, genPkg) {
+					continue
+				}
+				var par *ssa.Parameter
+				for ai, a := range h.Call.Call.Args {
+					if ai < len(h.Callee.Params) && core.TypeStr(a.Type()) == "string" && core.OriginIs(a, func(o ssa.Value) bool { return optPart(o, 0) }) {
+						par = h.Callee.Params[ai]
+					}
+				}
+				if par == nil {
+					continue
+				}
+				isNameEq := func(f core.Fact) (string, bool) {
+					if f.Op != token.EQL || f.X != ssa.Value(par) {
+						return "", false
+					}
+					return core.ConstString(f.Y)
+				}
+				for _, ef := range core.EdgeFactsOf(h.Callee) {
+					if sname, ok := isNameEq(ef.Fact); ok {
+						names[sname] = true
+					}
+				}
+				// the fields it answers with, and whether the answer is stored through with the parsed value
+				storedThrough := false
+				core.Instrs(body, func(in ssa.Instruction) {
+					if st, ok := in.(*ssa.Store); ok && core.TypeStr(st.Val.Type()) == "bool" {
+						if _, isC := core.ConstBool(st.Val); !isC && core.OriginIs(st.Addr, func(o ssa.Value) bool { return o == ssa.Value(h.Call) }) {
+							storedThrough = true
+						}
+					}
+				})
+				if !storedThrough {
+					continue
+				}
+				for _, r := range core.Returns(h.Callee) {
+					if len(r.Results) != 1 {
+						continue
+					}
+					_, f, isF := core.FieldOf(r.Results[0])
+					if !isF {
+						continue
+					}
+					for _, ef := range core.DominatingFacts(r) {
+						if sname, ok := isNameEq(ef.Fact); ok {
+							viaHelper[sname] = f
+						}
+					}
+				}
+			}
 			want := []string{"debug", "import_path", "legacy_desc_names", "legacy_stubs", "module", "paths"}
 			got := []string{}
 			for n := range names {
@@ -752,6 +806,9 @@ func c19(c *core.Ctx) {
 					}
 				}
 			})
+			for k, v := range viaHelper {
+				fieldOfOpt[k] = v
+			}
 			norm := func(s string) string { return strings.ToLower(strings.ReplaceAll(s, "_", "")) }
 			okBool := len(fieldOfOpt) == 3
 			for opt, f := range fieldOfOpt {
